@@ -168,6 +168,17 @@ func c02Gen(r *rng, n int, w *bufio.Writer) {
 			l := r.n(nLists)
 			bodies[l] = append(bodies[l], t)
 		}
+		if r.chance(1, 4) {
+			// a rule, its $badfilter twin, and AFTER them (in one list, so in match order) the only survivor
+			d := pick(r, focus)
+			l := r.n(nLists)
+			surv := pick(r, []string{"||" + d + "^$important", "@@||" + d + "^", "||" + d + "^$dnstype=~TXT"})
+			for _, t := range []string{"||" + d + "^", "||" + d + "^$badfilter", surv} {
+				all = append(all, t)
+				bodies[l] = append(bodies[l], t)
+			}
+			used = append(used, d)
+		}
 		var lists []filterlist.RuleList
 		var note []string
 		for j, b := range bodies {
